@@ -9,6 +9,7 @@ ids = args or sorted(os.listdir(os.path.join(ROOT, "seeded")))
 def sh(cmd, **kw): return subprocess.run(cmd, shell=True, capture_output=True, text=True, **kw)
 for sid in ids:
     d = os.path.join(ROOT, "seeded", sid); meta = json.load(open(os.path.join(d, "meta.json")))
+    if meta.get("neutralised_by_fix"): print(sid, "neutralised by a later fix: skipped"); continue
     checks = extra or [meta["property"]]
     assert sh("git -C /repo status --porcelain --untracked-files=no").stdout.strip() == "", "/repo not clean"
     r = sh(f"git -C /repo apply {d}/patch.diff")
